@@ -107,7 +107,16 @@ func SchedulePromises(config *system.Config, tags map[string]string) gocoro.Coro
 				continue
 			}
 
-			if completion.Store.Results[0].CreatePromise.RowsAffected == 0 {
+			// the promise command is merged with a task command when the
+			// promise tags route it to a receiver
+			var promiseRowsAffected int64
+			if completion.Store.Results[0].Kind == t_aio.CreatePromiseAndTask {
+				promiseRowsAffected = completion.Store.Results[0].CreatePromiseAndTask.PromiseRowsAffected
+			} else {
+				promiseRowsAffected = completion.Store.Results[0].CreatePromise.RowsAffected
+			}
+
+			if promiseRowsAffected == 0 {
 				slog.Warn("promise to be scheduled already exists", "promise", commands[i].Id, "schedule", result.Records[i].Id)
 			}
 		}
